@@ -894,3 +894,132 @@ def gen_aggregate_case(rng, cid):
     return {"id": cid, "kind": "aggregate", "sources": sources, "sources_struct": structs,
             "graph": {"packages": pkgs}, "local_struct": store, "cmap": cmap,
             "registry": {"users": [[1, "user1", "User 1"], [2, "user2", "User 2"], [3, "user3", "User 3"]], "packages": reg, "meta": {}}}
+
+
+# ---------------------------------------------------------------------------
+# fault-injected stores and peers (C15)
+
+SITES = ["SExemption", "SPolicy", "SPolicyDev", "SPolicyDep", "SImplies", "SAudit", "SWildcard", "STrusted",
+         "SCriteriaMap", "SLockAudit", "SLockWildcard"]
+
+
+def inject_dangling(rng, store, pkgs, site, name="ghost-crit"):
+    """add a reference to an undefined criterion at the given site; returns True if done"""
+    third = sorted({p["name"] for p in pkgs if p["source"] == "registry"}) or ["tpaaa"]
+    crate = rng.choice(third)
+    if site == "SExemption":
+        store["exemptions"].setdefault(crate, []).append({"version": "1.0.0", "criteria": [name], "notes": "fault"})
+    elif site in ("SPolicy", "SPolicyDev", "SPolicyDep"):
+        ws = [p for p in pkgs if p["workspace"]][0]
+        ent = store["policy"].setdefault(ws["name"], {})
+        if site == "SPolicy":
+            ent["criteria"] = [name]
+        elif site == "SPolicyDev":
+            ent["dev-criteria"] = ["safe-to-run", name]
+        else:
+            ent.setdefault("dependency-criteria", {})[crate] = [name]
+    elif site == "SImplies":
+        store["criteria"]["fault-crit"] = {"description": "x", "implies": [name]}
+    elif site == "SAudit":
+        store["audits"].setdefault(crate, []).append({"kind": "full", "version": "1.0.0", "criteria": ["safe-to-run", name], "notes": "fault"})
+    elif site == "SWildcard":
+        store["wildcard_audits"].setdefault(crate, []).append(
+            {"user-id": 1, "start": "2022-01-01", "end": "2023-06-01", "criteria": [name], "notes": "fault"})
+    elif site == "STrusted":
+        store["trusted"].setdefault(crate, []).append(
+            {"user-id": 1, "start": "2022-01-01", "end": "2023-06-01", "criteria": [name], "notes": "fault"})
+    elif site == "SCriteriaMap":
+        if not store["imports"]:
+            return False
+        peer = rng.choice(sorted(store["imports"]))
+        store["imports"][peer].setdefault("criteria-map", {})["safe-to-deploy"] = [name]
+    elif site in ("SLockAudit", "SLockWildcard"):
+        if not store["imports"]:
+            return False
+        peer = rng.choice(sorted(store["imports"]))
+        f = store["lock"]["audits"].setdefault(peer, {"criteria": {}, "audits": {}, "wildcard_audits": {}})
+        if site == "SLockAudit":
+            f["audits"].setdefault(crate, []).append({"kind": "full", "version": "1.0.0", "criteria": [name], "notes": "fault"})
+        else:
+            f.setdefault("wildcard_audits", {}).setdefault(crate, []).append(
+                {"user-id": 1, "start": "2022-01-01", "end": "2023-06-01", "criteria": [name], "notes": "fault"})
+    return True
+
+
+def gen_validate_case(rng, cid):
+    base = gen_unlocked_case(rng, cid, p_violation=0.0)
+    store = base["store_struct"]
+    pkgs = base["graph"]["packages"]
+    # locked loads need imports.lock to list exactly the configured imports
+    for peer in store["imports"]:
+        store["lock"]["audits"].setdefault(peer, {"criteria": {}, "audits": {}, "wildcard_audits": {}})
+    for peer in list(store["lock"]["audits"]):
+        if peer not in store["imports"]:
+            del store["lock"]["audits"][peer]
+    locked = rng.random() < 0.5
+    faults = []
+    peers_text = None
+    text_fault = None
+    for _ in range(rng.choice([0, 1, 1, 1, 2, 3])):
+        r = rng.random()
+        if r < 0.45:
+            site = rng.choice(SITES)
+            if inject_dangling(rng, store, pkgs, site):
+                faults.append({"kind": "dangling", "site": site})
+        elif r < 0.53 and store["criteria"]:
+            victim = rng.choice(sorted(store["criteria"]))
+            del store["criteria"][victim]
+            faults.append({"kind": "deleted-definition", "name": victim})
+        elif r < 0.60:
+            store["criteria"]["loop-a"] = {"description": "x", "implies": ["loop-a"] if rng.random() < 0.5 else ["loop-b"]}
+            if store["criteria"]["loop-a"]["implies"] == ["loop-b"]:
+                store["criteria"]["loop-b"] = {"description": "x", "implies": ["loop-a"]}
+            faults.append({"kind": "table-cycle"})
+        elif r < 0.65:
+            store["criteria"][rng.choice(BUILTINS)] = {"description": "shadow"}
+            faults.append({"kind": "table-shadow"})
+        elif r < 0.69:
+            n = rng.choice([61, 62, 63, 70])
+            for k in range(n):
+                store["criteria"][f"many-{k:02d}"] = {"description": "x"}
+            faults.append({"kind": "many-criteria", "count": len(store["criteria"])})
+        elif r < 0.76:
+            crate = rng.choice(sorted({p["name"] for p in pkgs}))
+            store["wildcard_audits"].setdefault(crate, []).append(
+                {"user-id": 2, "start": "2022-01-01", "end": rng.choice(["2024-01-01", "2024-01-02", "2024-06-01", "2023-12-31"]),
+                 "criteria": ["safe-to-run"], "notes": "far"})
+            faults.append({"kind": "wildcard-end"})
+        elif r < 0.88 and base["peers_struct"]:
+            url = rng.choice(sorted(base["peers_struct"]))
+            pf = base["peers_struct"][url]
+            k = rng.random()
+            if k < 0.3:
+                pf["criteria"]["safe-to-run"] = {"description": "peer shadows builtin"}
+                faults.append({"kind": "peer-table-shadow"})
+            elif k < 0.6:
+                pf["criteria"]["pl-a"] = {"description": "x", "implies": ["pl-b"]}
+                pf["criteria"]["pl-b"] = {"description": "x", "implies": ["pl-a"]}
+                faults.append({"kind": "peer-table-cycle"})
+            else:
+                crate = rng.choice(sorted({p["name"] for p in pkgs}))
+                pf["audits"].setdefault(crate, []).append({"kind": "full", "version": "1.0.0", "criteria": ["peer-unknown"], "notes": "p"})
+                faults.append({"kind": "peer-unknown-criteria"})
+        else:
+            text_fault = rng.choice(["truncate", "unknown-field", "wrong-type", "junk-peer"])
+            faults.append({"kind": "text-" + text_fault})
+    case = {"id": cid, "kind": "validate", "graph": base["graph"], "store_struct": store,
+            "peers_struct": base["peers_struct"], "registry": base["registry"],
+            "mode": "locked" if locked else "unlocked", "faults": faults}
+    case = finalize(case)
+    if text_fault == "truncate":
+        k = rng.choice(["config", "audits", "imports"])
+        t = case["store"][k]
+        case["store"][k] = t[:rng.randint(max(1, len(t) // 3), max(2, len(t) - 1))]
+    elif text_fault == "unknown-field":
+        case["store"]["audits"] += "\n[mystery]\nx = 1\n"
+    elif text_fault == "wrong-type":
+        case["store"]["config"] = case["store"]["config"].replace('version = "1.0"', "version = 1", 1)
+    elif text_fault == "junk-peer" and case.get("peers"):
+        names = sorted({p["name"] for p in pkgs})
+        case["peers"] = {u: add_junk(rng, t, names) for u, t in case["peers"].items()}
+    return case
